@@ -32,6 +32,7 @@ import Circomspect.Lemmas.DegreeLemmas
 import Circomspect.Lemmas.PathDegrees
 import Circomspect.Lemmas.PathValues
 import Circomspect.Lemmas.CfgReachLemmas
+import Circomspect.Lemmas.JoinCover
 
 namespace Circomspect.C07
 open Circomspect Gen Algebra Propagate Ir
@@ -204,6 +205,16 @@ theorem C07_join_conditions (es : List (Nat × Nat)) (idom : Option Nat) (j x : 
     x ∈ CfgReach.joinWalk es idom j ↔
       ∃ p, (p, j) ∈ es ∧ Taint.Reach (es.filter (fun e => some e.2 != idom)) x p :=
   CfgReach.mem_joinWalk es idom j x
+
+/-- … stated on paths: for a strict dominator `d` of a block `j` (the code takes the immediate dominator), every path from the entry to
+    `j` visits `d`, and every block it visits after the last visit of `d` — `d` included — is found by the walk.  The decisions that
+    select the predecessor through which `j` is entered, hence the argument its phi expressions take, are taken at those blocks;
+    if all of them are constant (they depend on template parameters only), the selection is the same in every execution. -/
+theorem C07_join_conditions_cover {g : Graph.Graph} {es : List (Nat × Nat)} (hes : CfgReach.EdgesOf g es) (j d : Nat)
+    (hd : Graph.SDom g d j) (π : List Nat) (hp : Graph.Path g j π) :
+    ∃ pre rest, π = j :: (pre ++ d :: rest) ∧ (∀ x, x ∈ pre → x ≠ d) ∧
+      ∀ x, x ∈ pre ++ [d] → x ∈ CfgReach.joinWalk es (some d) j :=
+  CfgReach.joinWalk_covers_dom hes j d hd π hp
 
 /-- after the repair: no claim for the read behind the join decided by the signal … -/
 theorem C07_control_dependence_repaired : claimOf cd = [none] := by decide
